@@ -147,6 +147,71 @@ ASSUMPTIONS += [
     "enumerate/range indices are integers for which 0 is an ordinary value",
 ]
 
+# rules/c11_keys.py (R11.21, R11.22)
+EXPLANATION += (
+    "  R11.21 / R11.22 (rules/c11_keys.py) keys under which the optimiser "
+    "groups or identifies nodes.  A small abstract interpreter runs over "
+    "every visitor class of optimize.py (each Visit/Enter/Leave<Class> hook, "
+    "its parameter typed by the hook's name) and over pytd_utils.JoinTypes "
+    "(its parameter: a collection of TypeU nodes): a value is described by "
+    "the access paths of the element it was computed from that it determines "
+    "(`sig.params[*].name`, the class, the whole node), typed by the pytd "
+    "schema read from pytd.py (fields, tuple fields, properties such as "
+    "GenericType.name, subclass relation, GENERIC_BASE_TYPE); dicts / sets / "
+    "lists / helper objects are summarised by the join of what was stored in "
+    "them and remember which dict a value came out of; module-local helpers, "
+    "methods (module-local MRO), closures, lambdas, comprehensions and "
+    "generators are evaluated at their call sites; isinstance / exact-class "
+    "tests narrow the class set of the tested element in both branches, "
+    "behind guard clauses and inside conditional expressions; every return "
+    "path of a key helper is kept as a separate alternative.  R11.21: at "
+    "every place where a node is built from ONE member of a group "
+    "(`member.Replace(..)`, `key_copy.Replace(..)`, `pytd.C(f=member.f, ..)`) "
+    "while another argument comes out of the dict the members were grouped "
+    "in, every field that is taken over (schema fields minus the replaced "
+    "ones) must be determined by the key of that dict on every alternative - "
+    "a tuple field element-wise through a comprehension over it, a stripped "
+    "copy `x.Replace(f=None)` determines every field but f; for the stripped "
+    "copy used as key AND as receiver the stripped fields must all be "
+    "re-filled.  Seeded C11-r3m1 groups signatures by "
+    "(name, type, kind, optional) per parameter and rebuilds the merged "
+    "signature from the first member: params[*].mutated_type is taken over "
+    "but not in the key.  Instances today: CombineReturnsAndExceptions "
+    "(signatures), CombineContainers (union members, key base_type [+ arity]). "
+    "R11.22: a set (or a dict used as ordered set) whose key is computed from "
+    "an element while the element itself is appended / yielded / stored next "
+    "to it drops later elements with the same key; on every alternative the "
+    "key must be the element, or include its class (unless only one class "
+    "can reach that alternative) and determine every field the class's "
+    "equality reads (hand-written __eq__: the fields it reads; generated: "
+    "all).  An isinstance arm for GenericType is reached by TupleType, "
+    "CallableType and Concatenate unless earlier arms took them (seeded "
+    "C11-r3m2: Tuple[int] and Tuple[int, ...] share the key "
+    "(name, parameter keys)).  Instance today: JoinTypes (key = the type "
+    "itself).  Blind spots: R11.21 does not demand that the key determines "
+    "the CLASS of the member that is kept (CombineContainers._key relies on "
+    "base_type determining TupleType / CallableType / GenericType) and does "
+    "not check that the re-computed fields really use all members; R11.22 "
+    "does not compare keys ACROSS alternatives (two arms returning equal "
+    "tuples for different classes), ignores de-duplication by list "
+    "membership and by pytd_utils.OrderedSet (both compare the nodes "
+    "themselves), and calls into other modules are not followed: a key "
+    "computed by a function the interpreter cannot see is an analysis "
+    "error when it reaches a judged set / dict, an isinstance test against a "
+    "class expression it cannot resolve makes a violation an analysis "
+    "error.  Sources of elements are named by field (`<signatures>`, "
+    "`<type_list>`), so two loops over the same field of re-bound locals are "
+    "the same source.")
+ASSUMPTIONS += [
+    "R11.21/R11.22: Visit<C>/Enter<C>/Leave<C> hooks receive a node of class "
+    "C (base_visitor dispatches on the exact class name); an attribute whose "
+    "name is a tuple-of-nodes field of exactly one schema field type "
+    "(signatures, type_list, params, parameters, ...) read from an untyped "
+    "value is that field; the members handed to JoinTypes are TypeU nodes; "
+    "str/len/repr/hash/... of a node do not determine it; tuple()/list() of a "
+    "generator keep order and multiplicity, set()/frozenset()/sorted() do not",
+]
+
 OPT = "pytype/pytd/optimize.py"
 UTILS = "pytype/pytd/pytd_utils.py"
 IO = "pytype/io.py"
